@@ -80,11 +80,19 @@ func (p *poller) addConn(c *Conn) error {
 		_ = c.closeWithError(err)
 		return err
 	}
-	if p.g.isStopping() {
+	p.g.mux.Lock()
+	if p.g.stopping {
 		// the engine is stopping: do not open new connections.
+		p.g.mux.Unlock()
 		_ = c.closeWithError(net.ErrClosed)
 		return net.ErrClosed
 	}
+	// Counted under the engine mutex, i.e. before Stop starts waiting for the
+	// connections: Stop cannot return while this connection is being added, and
+	// the check below closes it if Stop began meanwhile.
+	p.g.wgConn.Add(1)
+	p.g.mux.Unlock()
+	defer p.g.wgConn.Done()
 	c.p = p
 	if c.typ != ConnTypeUDPServer {
 		p.g.onOpen(c)
@@ -357,7 +365,13 @@ func (p *poller) readWriteLoop() {
 							}
 							if h := c.takeOnConnected(false); h != nil {
 								h(c, nil)
+								// Under the connection mutex: the callback may have
+								// handed the connection to a goroutine that closes
+								// it, and the descriptor number must not be reused
+								// between the closed check and EPOLL_CTL_MOD.
+								c.mux.Lock()
 								c.resetRead()
+								c.mux.Unlock()
 							}
 						}
 						// EPOLLONESHOT disabled the fd when this event was reported;
